@@ -30,6 +30,9 @@
 
 mod lexer;
 
+#[cfg(sas_lexer_verif)]
+pub mod verif;
+
 pub use lexer::buffer::{
     Payload, ResolvedTokenInfo, TokenIdx, TokenInfo, TokenInfoIter, TokenizedBuffer,
 };
